@@ -502,9 +502,18 @@ impl TransformerContext {
     /// Register an element which has not been evaluated yet, unless its id is
     /// already known (a re-evaluated element keeps its earlier registration until
     /// it is resolved again).
+    /// Evaluate an `id` attribute for registration without consuming anything from the
+    /// document's random stream: the element's own evaluation draws the same value.
+    fn eval_id(&mut self, id: String) -> String {
+        let rng = self.save_rng();
+        let id = eval_attr(&id, self).unwrap_or(id);
+        self.restore_rng(rng);
+        id
+    }
+
     pub fn register_element(&mut self, el: &SvgElement) {
         if let Some(id) = el.get_attr("id") {
-            let id = eval_attr(&id, self).unwrap_or(id);
+            let id = self.eval_id(id);
             if !self.elem_map.contains_key(&id) {
                 self.update_element(el);
             }
@@ -513,7 +522,7 @@ impl TransformerContext {
 
     pub fn update_element(&mut self, el: &SvgElement) {
         if let Some(id) = el.get_attr("id") {
-            let id = eval_attr(&id, self).unwrap_or(id);
+            let id = self.eval_id(id);
             let old = self.elem_map.insert(id.clone(), el.clone());
             if old.as_ref() != Some(el) {
                 self.change_count += 1;
